@@ -392,7 +392,8 @@ Definition mod_divisor_has_zero (s : store) (p : pdesc) : bool :=
    (aux_dom).  Implied by validate = None. *)
 Definition doms_nonempty (s : store) : bool := forallb (fun d => negb (dempty d)) s.
 Definition validate (s : store) (ps : list pdesc) : option verr :=
-  if existsb (fun d => dempty d || dom_too_large d) s then Some EInvalidDomain
+  if existsb dempty s then Some EInvalidDomain
+  else if existsb dom_too_large s then Some EInvalidDomain
   else if existsb (mod_divisor_has_zero s) ps then Some EInvalidConstraint
   else None.
 
